@@ -1,6 +1,6 @@
 #!/bin/bash
-# usage: seedtest.sh <seed-dir-name> [tier]   -- applies a seeded change to /repo, runs the property's check, undoes it
-s=$1; tier=${2:-quick}; p=${s%%-*}
+# usage: seedtest.sh <seed-dir-name> [tier] [property to check instead of the seed's own]   -- applies a seeded change to /repo, runs the property's check, undoes it
+s=$1; tier=${2:-quick}; p=${3:-${s%%-*}}
 if ! git -C /repo diff --quiet; then echo "repo dirty"; exit 2; fi
 git -C /repo apply /verif/seeded/$s/patch.diff || { echo "APPLY FAILED $s"; exit 2; }
 python3 /verif/tools/check.py $p --tier $tier > /verif/work/seedtest-$s.log 2>&1; rc=$?
